@@ -197,13 +197,15 @@ def build_transform(t, d):
     raise ValueError(kind)
 
 
-def _expect_shape(got, exp, tol, path="shape"):
+def _expect_shape(got, exp, tol, path="shape", dims=None):
     """compare a real shape with the abstract expected shape (class, points, landmark tree)"""
     if type(got).__name__ != exp["cls"]:
         return "%s: class %s, expected %s" % (path, type(got).__name__, exp["cls"])
     if exp.get("empty"):
         if got.n_points != 0:
             return "%s: a group without points came back with %d points" % (path, got.n_points)
+        if dims is not None and got.n_dims != dims:
+            return "%s: a group without points has %d dimensions where its owner has %d" % (path, got.n_dims, dims)
     elif exp["pts"] != []:
         E = L.pts(exp["pts"])
         if got.points.shape != E.shape or not L.close(got.points, E, tol):
@@ -213,7 +215,7 @@ def _expect_shape(got, exp, tol, path="shape"):
     if have != names:
         return "%s: landmark groups %r, expected %r" % (path, have, names)
     for n, sub in exp["lms"]:
-        r = _expect_shape(got.landmarks[n], sub, tol, path + ".landmarks[%s]" % n)
+        r = _expect_shape(got.landmarks[n], sub, tol, path + ".landmarks[%s]" % n, dims=got.n_dims)
         if r:
             return r
     return None
@@ -635,6 +637,23 @@ def check_geom(o):
             continue
         if not same_geom:
             bad.append(("the same mesh with its coordinates stored as %s has other areas / edge lengths / normals" % fname, {}, None))
+    # a larger mesh (12 x 12 grid lifted out of the plane) with its triangle list stored in the narrowest type that holds its indices
+    if o["case"]["mesh"] == "grid23":
+        import menpo.shape as ms
+
+        g2 = ms.TriMesh.init_2d_grid((12, 12))
+        P3 = np.hstack([g2.points, (np.sin(g2.points[:, :1]) + 0.5 * np.cos(2.0 * g2.points[:, 1:2]))])
+        ref_m = ms.TriMesh(P3.copy(), trilist=np.asarray(g2.trilist, dtype=np.int64))
+        for dt in (np.uint8, np.int16, np.uint16, np.int32, np.uint32):
+            mm = ms.TriMesh(P3.copy(), trilist=np.asarray(g2.trilist).astype(dt))
+            try:
+                okg = np.allclose(mm.vertex_normals(), ref_m.vertex_normals(), atol=1e-12) and np.allclose(mm.tri_normals(), ref_m.tri_normals(), atol=1e-12) \
+                    and np.allclose(mm.tri_areas(), ref_m.tri_areas(), atol=1e-12) and np.array_equal(mm.boundary_tri_index(), ref_m.boundary_tri_index())
+            except Exception as e:
+                bad.append(("geometry of a 144-vertex mesh with a %s triangle list raised %s" % (np.dtype(dt).name, type(e).__name__), {"msg": str(e)[:100]}, None))
+                continue
+            if not okg:
+                bad.append(("geometry of a 144-vertex mesh depends on the integer type of its triangle list (%s)" % np.dtype(dt).name, {}, None))
     # grid meshes built from a depth image: a MASKED depth image gives the mesh of the unmasked one masked afterwards - vertices,
     # triangles and the per-vertex colours handed to the constructor
     if o["case"]["mesh"] == "grid23":
